@@ -492,7 +492,7 @@ class SimDevice:
         self.index = index
         self.address = IndividualAddress(address)
         self.prog = prog
-        self.co = co  # "answer" | "refuse" | "silent"
+        self.co = co  # "answer" | "refuse" | "silent" | faulty variants of "answer", see SimBus._p2p
         self.serial = serial
         self.chatty = chatty  # answers every serial-number read with its own serial (as if another client had asked)
         self.levels = levels  # (free access level, level for client_key)
@@ -570,7 +570,13 @@ class SimBus:
             if kind in ("TConnect", "TDataConnected"):
                 self._reply(dev, Telegram(client, source_address=dev.address, tpci=tpci.TDisconnect()))
             return
-        # co == "answer"
+        # connection-oriented devices: "answer" and its faulty variants
+        #   nak                 - T_NAK instead of T_ACK, no answer
+        #   ack_wrong_number    - T_ACK carries the next number, answers normally
+        #   other_service       - acknowledges, answers a DeviceDescriptorRead with another APCI service
+        #   ack_only            - acknowledges, never answers
+        #   late                - acknowledges, answers after 7 s (the client waits 6 s)
+        #   wrong_number_answer - acknowledges, answer carries a sequence number 3 ahead
         if kind == "TConnect":
             dev.connected_to = client
             dev.tx_seq = 0
@@ -579,11 +585,23 @@ class SimBus:
         elif kind == "TDataConnected":
             if dev.connected_to != client:
                 return
-            self._reply(dev, Telegram(client, source_address=dev.address, tpci=tpci.TAck(sequence_number=rec["seq"])))
             payload = rec["payload"]
-            answer = None
+            if isinstance(payload, apci.Restart):
+                dev.restarts += 1
+                dev.prog = False
+                dev.connected_to = None
+                self._reply(dev, Telegram(client, source_address=dev.address, tpci=tpci.TAck(sequence_number=rec["seq"])))
+                return
+            if dev.co == "nak":
+                self._reply(dev, Telegram(client, source_address=dev.address, tpci=tpci.TNak(sequence_number=rec["seq"])))
+                return
+            ack_no = (rec["seq"] + 1) & 0xF if dev.co == "ack_wrong_number" else rec["seq"]
+            self._reply(dev, Telegram(client, source_address=dev.address, tpci=tpci.TAck(sequence_number=ack_no)))
+            answer: Any = None
             if isinstance(payload, apci.DeviceDescriptorRead):
                 answer = apci.DeviceDescriptorResponse(descriptor=payload.descriptor, value=0x07B0)
+                if dev.co == "other_service":
+                    answer = apci.MemoryResponse(address=0x0060, data=b"\x07\xb0")
             elif isinstance(payload, apci.AuthorizeRequest):
                 if payload.key == 0xFFFFFFFF:
                     level = dev.levels[0]
@@ -592,12 +610,11 @@ class SimBus:
                 else:
                     level = 15
                 answer = apci.AuthorizeResponse(level=level)
-            elif isinstance(payload, apci.Restart):
-                dev.restarts += 1
-                dev.prog = False
-                dev.connected_to = None
-            if answer is not None:
-                seq = dev.tx_seq
-                dev.tx_seq = (dev.tx_seq + 1) & 0xF
-                self._reply(dev, Telegram(client, source_address=dev.address, tpci=tpci.TDataConnected(sequence_number=seq),
-                                          payload=answer), extra=0.001)
+            if answer is None or dev.co == "ack_only":
+                return
+            seq = dev.tx_seq
+            dev.tx_seq = (dev.tx_seq + 1) & 0xF
+            if dev.co == "wrong_number_answer":
+                seq = (seq + 3) & 0xF
+            self._reply(dev, Telegram(client, source_address=dev.address, tpci=tpci.TDataConnected(sequence_number=seq),
+                                      payload=answer), extra=7.0 if dev.co == "late" else 0.001)
